@@ -375,7 +375,8 @@ class Buffer:
         >>> c.position
         4
         """
-        c = self.__init(self.__empty(), self.peek().position)
+        start = self.peek().position if self.hasNext() else self.__i
+        c = self.__init(self.__empty(), start)
         while self.hasNext() and not condition(self.peek() if peek else self):
             c += self.forward(1)
         return c
